@@ -143,11 +143,53 @@ RepProgs ==
   \cup {RepProg(EArr(<<EArr(<<ENum(I(0)), ENum(I(0))>>), EStr(<<120>>)>>), n, MutAnyArr) : n \in {1, 2}}
   \cup {RepProg(EArr(<<EMap(<<K_a>>, <<ENum(I(1))>>), ENum(I(5))>>), n, MutAnyMap) : n \in {1, 2}}
 
+\* (e) the value of an expression does not depend on other expressions that share an operand with it: two (three)
+\*     results built from the same left operand, which has been indexed before; then every element of every result
+WS == EVar("w", T_str)
+WA == EVar("w", TArr(T_num))
+StrOf(n) == EStr(SubSeq(<<104, A_uml, 108, C_euro, 111, 119, 33>>, 1, n))
+ArrOf(n) == EArr([i \in 1..n |-> ENum(I(i))])
+AllIdx(v, n) == [i \in 1..n |-> EIdx(v, ENum(I(i - 1)))] \o <<EIdx(v, EUn("-", ENum(I(1)))), ESlice(v, <<ENum(I(n - 1))>>, <<>>)>>
+SibStr(n, x1, x2) ==
+  LET R1 == EVar("r1", T_str)   R2 == EVar("r2", T_str)   R3 == EVar("r3", T_str)
+  IN Program(<<SInfer("w", StrOf(n)), SCall(ECallB("print", <<EIdx(WS, ENum(I(0))), ECallB("len", <<WS>>)>>)),
+               SInfer("r1", EBin("+", WS, EStr(x1))), SInfer("r2", EBin("+", WS, EStr(x2))), SInfer("r3", EBin("+", R1, EStr(x2))),
+               SCall(ECallB("print", <<R1, R2, R3, WS>>)),
+               SCall(ECallB("print", AllIdx(R1, n + Len(x1)))), SCall(ECallB("print", AllIdx(R2, n + Len(x2)))), SCall(ECallB("print", AllIdx(WS, n))),
+               SCall(ECallB("print", <<EIdx(EGrp(EBin("+", EGrp(EBin("+", WS, EStr(x1))), EGrp(EBin("+", WS, EStr(x2))))), ENum(I(n))),
+                                       EBin("==", EIdx(R1, ENum(I(n))), EStr(<<x1[1]>>))>>))>>, <<>>, <<>>)
+SibArr(n, k) ==
+  LET TA_ == TArr(T_num)
+      R1 == EVar("r1", TA_)   R2 == EVar("r2", TA_)
+      X(b) == EArr([i \in 1..k |-> ENum(I(b + i))])
+  IN Program(<<SInfer("w", ArrOf(n)), SInfer("r1", EBin("+", WA, X(10))), SInfer("r2", EBin("+", WA, X(20))),
+               SCall(ECallB("print", <<R1, R2, WA>>)), SAsg(EIdx(R2, ENum(I(0))), ENum(I(99))),
+               SCall(ECallB("print", AllIdx(R1, n + k))), SCall(ECallB("print", AllIdx(R2, n + k))), SCall(ECallB("print", AllIdx(WA, n)))>>, <<>>, <<>>)
+SibProgs == {SibStr(n, x1, x2) : n \in 1..7, x1 \in {<<33>>, <<A_uml, 33>>}, x2 \in {<<63>>, <<63, C_euro, 63>>}}
+            \cup {SibArr(n, k) : n \in 1..6, k \in 1..2}
+
+\* (f) deep equality compares contents, also when one operand is contained in the other by reference (acyclic)
+EqNest ==
+  LET TAA == TArr(T_any)   TMA == TMap(T_any)
+      In == EVar("inner", TAA)   Mid == EVar("mid", TAA)   Out == EVar("outer", TAA)
+      N1 == EVar("n1", TMA)   N2 == EVar("n2", TMA)   N3 == EVar("n3", TMA)
+      Row == EVar("row", TAA)   Tab == EVar("tab", TAA)
+  IN { Program(<<SInfer("inner", EArr(<<ENum(I(7)), EStr(<<108>>)>>)), SInfer("mid", EArr(<<In, EStr(<<110>>)>>)), SInfer("outer", EArr(<<Mid, EStr(<<110>>)>>)),
+                 SCall(ECallB("print", <<EBin("==", Out, Mid), EBin("!=", Out, Mid), EBin("==", Mid, In), EBin("==", Mid, Out),
+                                         EBin("==", EArr(<<Out>>), EArr(<<Mid>>)), EBin("==", Out, Out), EBin("==", EAssert(EIdx(Out, ENum(I(0))), TAA), Mid)>>))>>, <<>>, <<>>),
+       Program(<<SInfer("n3", EMap(<<<<118>>, <<110>>>>, <<ENum(I(2)), EMap(<<>>, <<>>)>>)), SInfer("n2", EMap(<<<<118>>, <<110>>>>, <<ENum(I(1)), N3>>)),
+                 SInfer("n1", EMap(<<<<118>>, <<110>>>>, <<ENum(I(1)), N2>>)),
+                 SCall(ECallB("print", <<EBin("==", N1, N2), EBin("!=", N1, N2), EBin("==", N2, N3), EBin("==", EAssert(EDot(N1, <<110>>), TMA), N2), EBin("==", N2, N1)>>))>>, <<>>, <<>>),
+       Program(<<SInfer("row", EArr(<<EArr(<<>>), EStr(<<120>>)>>)), SInfer("tab", EArr(<<Row, EStr(<<120>>)>>)),
+                 SCall(ECallB("print", <<EBin("==", Tab, Row), EBin("==", Row, Tab), EBin("!=", Tab, Row), EBin("==", EAssert(EIdx(Tab, ENum(I(0))), TAA), Row)>>)),
+                 SIf(<<EBin("==", Tab, Row)>>, << <<SCall(ECallB("print", <<EStr(<<101, 113>>)>>))>> >>, << <<SCall(ECallB("print", <<EStr(<<110, 101>>)>>))>> >>)>>, <<>>, <<>>) }
+
 Table == NumOps \cup StrOps \cup BoolOps \cup UnOps \cup ArrOps
 
 CasesOf(class, es) == {MkCase("FamExpr", class, PrintProg(e)) : e \in es}
 FamCases == CasesOf("lattice", Lattice) \cup CasesOf("table", Table) \cup {MkCase("FamExpr", "list", p) : p \in ListProgs}
             \cup {MkCase("FamExpr", "repeat", p) : p \in RepProgs}
+            \cup {MkCase("FamExpr", "siblings", p) : p \in SibProgs} \cup {MkCase("FamExpr", "nested-equality", p) : p \in EqNest}
 FamInit == InitWith(FamCases)
 
 =============================================================================
